@@ -7,6 +7,10 @@ from pathlib import Path
 VERIF = Path(__file__).resolve().parent.parent
 ALL = [f"C{n:02d}" for n in range(1, 21)]
 
+TRANSL = ("Tie to the source additionally by the translator harness/translate.py: on every run the relevant block of the CURRENT "
+          "source is read with Python's ast, emitted as Lean definitions and proved equal to the model (generated gen = model theorems, "
+          "compiled and axiom-audited that run; trusted: atom table, assignment walk, NumPy semantics written into the translator). ")
+
 NOTE = ("Trusted base: Lean 4.33 kernel; axioms propext/Classical.choice/Quot.sound only (audited per run with "
         "#audit_ns, no sorry/native_decide/own axioms: grep per run); hand-written code-faithful Lean model tied to "
         "/repo/src by the correspondence cases of each run (model driver dtsdrv vs real code on the same inputs); "
@@ -20,16 +24,21 @@ CLAIMED = {
     "C01": ("Lean 4: normal equations => global minimiser (Mathlib, any ordered field) + result-checked exact rational WLS in the model + bridge theorem; differential correspondence of the captured (X,y,w), optimum, covariance, layout, tmpf",
             "Proof: Theory.normalEq_min / normalEq_fitted_unique / exact_recovery; bridge check_sound (the model's exact check implies "
             "the normal equations on Mathlib matrices); C01_solution_minimises, C01_fitted_unique, C01_cov_is_ginverse, C01_dof, "
-            "C01_fixed_reported; weight alignment refuted (C01_w_aligned_refuted, registered known finding) with "
+            "C01_fixed_reported, C01_column_scaling (the unit-norm column scaling of wls_sparse: un-scaled solution minimises the posed "
+            "WSSR, un-scaled g-inverse is one of the posed normal matrix); weight alignment refuted (C01_w_aligned_refuted, registered known finding) with "
             "C01_w_aligned_partial. Every run: seeded Raman fibres (10 m..10 km, 0-2 splices, 0-2 matching pairs, four variance "
             "forms); the system reaching the solver is compared row by row with the model's, LSQR's optimum and lstsq's covariance "
             "with the exact optimum, the full-layout p_val/p_cov/tmpf with the model; independent Python Spec oracle.",
             NOTE + WLSNOTE, "§8 C01"),
     "C02": ("as C01 for the double-ended layout (forward/backward/EQ1-EQ3 rows, gauge-aware), plus tagged-solver position check",
             "Proof: C02_solution_minimises, C02_estimable_invariant (fitted values unique although X'WX is singular with splices), "
-            "C02_alpha_zero_at_first, C02_cov_positions, C02_ta_index, on the model Calib.calibrate (alphaOutside = inverse-variance "
+            "C02_alpha_zero_at_first, C02_cov_positions, C02_ta_index, the splice gauge (C02_splice_gauge_temperatures: db+=d, both losses "
+            "of a splice -=d, alpha+=d downstream changes no temperature; C02_splice_gauge_alpha_outside: alpha outside the sections moves "
+            "with it), on the model Calib.calibrate (alphaOutside = inverse-variance "
             "time average). Every run: double-ended fibres, rows/optimum/covariance/p_val/p_cov/tmpf/tmpb vs the model; with the "
-            "solver replaced by a tagged stub every reduced parameter, variance and covariance must sit at its documented index.",
+            "solver replaced by a tagged stub every reduced parameter, variance and covariance must sit at its documented index "
+            "(also with fix_gamma); gauge-independent oracle for alpha outside the reference sections (the property's formula on the "
+            "result's own parameters).",
             NOTE + WLSNOTE + "With splices only the weighted SSR (estimable) is compared.", "§8 C02"),
     "C03": ("Lean 4: exact-recovery theorem (normal equations + y = X p0 => fitted values, and parameters under full column rank) on the model's checked solve; noise-free end-to-end recovery over the option cross product",
             "Proof: C03_recovery (from Theory.exact_recovery and the bridge), C03_temperature_at_fitted_row (gamma/(I+o) = K when "
@@ -41,24 +50,27 @@ CLAIMED = {
     "C04": ("Lean 4: bijection of the documented layouts onto [0, npar) for all sizes + equation theorems; exhaustive layout/tagged-external correspondence and bit-exact external round trips",
             "Proof: C04_layout_partition_double / _single (every parameter has exactly one slot, for all nt, nx, nta), "
             "C04_model_columns_* (the model's columns are those slots; splice index = F-order reshape), C04_tmpf_equation_double, "
-            "C04_tmpb_equation, C04_splice_mask. Every run: for all (nt, nx <= 6 quick / 8 thorough, nta <= 3) x {single, single "
+            "C04_tmpb_equation, C04_splice_mask; generated each run from the source: the ParameterIndex* blocks = C04.indexD/indexS for all "
+            "sizes, flatten/read order of taf/tab, tmpf/tmpb equations. Every run: for all (nt, nx <= 6 quick / 8 thorough, nta <= 3) x {single, single "
             "alpha-mode, double} the ParameterIndex tables vs the model vs the docstring, a method='external' run with distinct "
             "p_val/p_cov entries whose named outputs, *_var and tmpf/tmpb must come from the documented slots; wls results fed back "
-            "through method='external' must reproduce every data variable bit for bit.",
-            NOTE, "§8 C04"),
-    "C05": ("Lean 4 (Mathlib, over R and any field): HasDerivAt facts of the temperature equation; ring identities term-list = J Sigma J^T; refutations for the omitted cross terms; term-by-term exact correspondence",
+            "through method='external' must reproduce every data variable bit for bit (also with parameters fixed at non-zero variance).",
+            NOTE + TRANSL, "§8 C04"),
+    "C05": ("Lean 4 (Mathlib, over R and any field): HasDerivAt facts of the temperature equation; ring identities term-list = J Sigma J^T incl. all cross terms; grouping lemma for several splices; derivative dictionaries and term lists regenerated from the source each run (translator) and proved equal to the model; term-by-term exact correspondence",
             "Proof: C05_derivs_fw, C05_deriv_alpha_bw, C05_deriv_dalpha (the derivative dictionary is the derivative, through "
             "Real.log), C05_channel_is_propagation, C05_single_is_propagation (12 terms = measurement part + J^T Sigma J), "
-            "C05_tmpw_accounting / _partial, C05_tmpw_is_propagation_refuted and C05_two_splices_refuted (registered known "
-            "findings). Every run: each component of var_fw_da / var_bw_da / var_w_da vs the model's term lists evaluated in exact "
+            "C05_tmpw_is_propagation (25 terms = J^T Sigma J over six parameter groups, all fifteen cross-covariances; the defects first "
+            "recorded were repaired in /repo, commit ccb9910), quad_group / group_cov_entry / C05_splice_pairs (several splices acting on "
+            "one location), C05_tmpw_cross_term_needed. Every run: generated derivsFwD/BwD/S_eq, varFwD/BwD/WD/FwS_eq (source = model); each component of var_fw_da / var_bw_da / var_w_da vs the model's term lists evaluated in exact "
             "rationals on the result's own p_val/p_cov (wls results and external results with random positive-definite p_cov); "
             "independent analytic-Jacobian oracle with all cross terms.",
-            NOTE + "p_var fed to the model is diag(p_cov).", "§8 C05"),
+            NOTE + TRANSL + "p_var fed to the model is diag(p_cov).", "§8 C05"),
     "C06": ("Lean 4 (ordered fields): convex-combination / betweenness / bound-ordering inequalities; correspondence of tmpw, approx, lower, tmpw_var",
-            "Proof: C06_tmpw_formula, C06_tmpw_between, C06_approx_le_min, convex_combo_lower, C06_lower_le_var (for a positive "
-            "semi-definite parameter part), C06_channel_var_positive. Every run: tmpw, tmpw_var_approx, tmpw_var_lower, tmpw_var of "
+            "Proof: C06_tmpw_formula, C06_tmpw_between, C06_approx_le_min, convex_combo_lower, C06_lower_le_var, C06_lower_le_tmpw_var (on the "
+            "code's own 25-term list, positive semi-definite parameter covariance), C06_channel_var_positive; generated each run: "
+            "approxD/tmpwD/weightsD/lowerD_eq and the term lists (source = model). Every run: tmpw, tmpw_var_approx, tmpw_var_lower, tmpw_var of "
             "double-ended results vs the exact model; the formulas and inequalities evaluated on the real outputs.",
-            NOTE + "Positivity with a float p_cov and the incomplete term lists with splices (known finding) are observed, not proved.", "§8 C06"),
+            NOTE + TRANSL + "Positivity with a float p_cov (possibly slightly indefinite after lstsq) is observed, not proved.", "§8 C06"),
     "C07": ("Lean 4: fixed-parameter reduction identity, reported-as-supplied theorem, positivity of the inflated variance; correspondence of the reduced system for every fix_* combination",
             "Proof: C07_fixed_reported, C07_reduction (wssr_fixed_reduction), C07_fixed_not_active, C07_weights_positive_spec, "
             "C07_reduceObs_single. Every run: C01/C02 generator x {fix_gamma, fix_dalpha, fix_alpha, fix_alpha+fix_gamma} x variance "
@@ -68,11 +80,14 @@ CLAIMED = {
     "C08": ("Lean 4: the sampler's index arithmetic equals the documented layout (all sizes), percentile monotonicity; unit-perturbation samplers give an exact unpacking correspondence; statistical sub-checks with fixed seeds",
             "Proof: C08_fromI_head, C08_fromI_alpha, C08_unpack_matches_layout_double (the Fortran-order reshape of the sampled tail "
             "reads tau^d_{a,t} from its documented slot), C08_unpack_matches_layout_single, C08_percentile_monotone (linear-interpolation "
-            "percentiles are non-decreasing in the level: bounds ordered along CI). Every run: samplers replaced by unit-perturbation "
+            "percentiles are non-decreasing in the level: bounds ordered along CI); generated each run: the Monte Carlo temperature "
+            "equations = the calibration's (mcTmpf/bD_eq, mcTmpfS_eq, mcTmpw_eq) and the splice-block unpacking reads the documented "
+            "slots (mc*_ta_*_slot). Every run: samplers replaced by unit-perturbation "
             "samplers, every realisation compared with the model's temperature equation at p_val perturbed at the documented slot; "
             "zero variances (bit-level equality with the calibration); all flag combinations; np.percentile vs the model; "
             "convergence of *_mc_var to *_var and bracketing within a chi-square 6-sigma band at fixed seeds.",
-            NOTE + "Convergence and bracketing are statistical and observed, not proved; judged for nta<=1 (tmpw: nta=0) because of the C05 findings.", "§8 C08"),
+            NOTE + TRANSL + "Convergence and bracketing are statistical and observed, not proved; tmpw convergence is judged in the small-noise "
+            "regime only (second-order term below a quarter of the band).", "§8 C08"),
     "C09": ("Lean 4: decision table of output dimensions (decide), n-term inverse-variance inequality, label=index selection; correspondence of dims, means and variance identities",
             "Proof: C09_no_mc_dim (no output of any mode is indexed by mc or by the averaged dimension), C09_avg2_var (1/sum(1/v_i) is "
             "positive and <= every v_i), C09_sel_eq_isel. Every run: names/dims of all outputs vs the model table; *_avg1/_avgx1 vs the "
@@ -95,28 +110,32 @@ CLAIMED = {
             "1-12 thorough, arbitrary finite values, shuffled creation order; faults: other point count, truncated file, missing "
             "companion): every variable compared exactly with the intended records, time axis order and accept/reject vs the model, "
             "Sensornet window and reverse rows vs the model, Sensortran bytes decoded by the model.",
-            NOTE + "Text/XML parsing is exercised, not modelled; for Sensornet the returned window (not completeness) is judged.", "§8 C11"),
+            NOTE + "Text/XML parsing is exercised, not modelled; for Sensornet the returned window (not completeness) is judged. Per-channel "
+            "acquisition times are written into the synthesised Silixa/Sensornet sets and compared.", "§8 C11"),
     "C12": ("Lean 4: order/span/midpoint theorems on an integer-nanosecond model of coords_time, same-instant identity for the zone conversion; direct differential correspondence with zoneinfo offsets; readers re-run under four host time zones",
             "Proof: C12_order, C12_span, C12_midpoint (single-ended: midpoint to within 1 s; double-ended: time = end of forward), "
-            "C12_same_instant, C12_same_zone. Every run: coords_time over time stamps 1990-2037, acquisition times 1-600 s (whole and "
+            "C12_same_instant, C12_same_zone; generated each run: the nine coordinates of coords_time in both modes = TimeCoords.coords. "
+            "Every run: synthesised Silixa/Sensornet sets with forward != backward acquisition times (span, midpoint, stamp); coords_time over time stamps 1990-2037, acquisition times 1-600 s (whole and "
             "fractional), IANA zone pairs incl. DST and half-hour zones: all nine coordinates in ns vs the model with zone offsets from "
             "zoneinfo; the four readers on the bundled vendor files in subprocesses under TZ = UTC / New_York / Kolkata / Auckland "
             "(+ another cwd, locale): identical coordinates; Sensortran against the epoch seconds of the binary header.",
-            NOTE + "The tz database is a parameter of the model; ambiguous local times are excluded and counted.", "§8 C12"),
+            NOTE + TRANSL + "The tz database is a parameter of the model; ambiguous local times are excluded and counted.", "§8 C12"),
     "C13": ("Lean 4: chunk-invariance theorems (map, label selection, reductions) for every chunking in exact arithmetic; dask-vs-memory runs over chunkings and schedulers",
             "Proof: C13_map_chunk_invariant, C13_filter_chunk_invariant, C13_sum_chunk_invariant (for every list of block sizes, "
             "per-block evaluation + concatenation/combination = whole-array evaluation). Every run: dask's own chunking and per-block "
             "results vs the model (exact); calibrate_single/double_ended and the Stokes variance estimators on dask-backed data with "
             "chunkings incl. 1x1 under the synchronous and the threaded scheduler (1..16 workers) vs in memory (1e-10); Silixa / "
-            "AP Sensing readers with load_in_memory False/True/'auto' compared exactly.",
+            "AP Sensing readers with load_in_memory False/True/'auto' compared exactly; a follow-up workflow (temp_err statistics twice, then "
+            "the variable again) compared between backings; two same-named lazily read directories evaluated in one dask computation.",
             NOTE + "Weakest fit for the technique (DESIGN §8 C13): scheduling, thread interleavings and float re-association are observed, not proved.", "§8 C13"),
     "C14": ("Lean 4 theorems on the model of the Python slicing in shift_double_ended and of the argmin in suggest_cable_shift_double_ended + exhaustive differential correspondence",
             "Proof (all sizes, all |i|<=nx): C14_length, C14_pairing_nonneg/neg (st[j+i] with rst[j]; st[j] with rst[j-i]), "
             "C14_zero_identity, C14_compose_nonneg/neg, C14_inverse_interior, C14_suggest_member, C14_argmin_unique (a strictly "
             "smallest objective is the one returned). Model vs shift_double_ended for every (nx<=12, |i|<nx) with tagged "
             "cells, extra variables and attrs (exact), compositions/inverses on the real function, and planted misalignments: "
-            "objectives recomputed in exact rationals, argmin compared when decisive.",
-            NOTE + "That a planted misalignment makes the objective minimal is a numeric fact about the data: observed, not proved.", "§8 C14"),
+            "objectives recomputed in exact rationals, argmin compared when decisive; generated each run: the slices of shift_double_ended "
+            "and of the candidate loop of suggest_cable_shift_double_ended = Shift.shift.",
+            NOTE + TRANSL + "That a planted misalignment makes the objective minimal is a numeric fact about the data: observed, not proved.", "§8 C14"),
     "C15": ("Lean 4 theorems on a code-faithful model (walk/shortcut/filter/nearest) + exact differential correspondence on all 4^N histories",
             "Proof: the chronological walk keeps (i,j) iff bw[j] is the next measurement after fw[i] (C15_walk_iff_adjacent, "
             "C15_merge_iff_adjacent), the early return equals the walk whenever it is taken (C15_shortcut_iff_adjacent, "
@@ -149,11 +168,13 @@ CLAIMED = {
             NOTE + "Bit-identity and non-mutation are runtime facts: observed, not proved.", "§8 C18"),
     "C19": ("Lean 4: finite decision table over six IEEE classes (decide) for the guard chain; one-corruption-at-a-time differential correspondence",
             "Proof: C19_refusal_table (every listed corruption x site is refused by the modelled guard chain), C19_valid_passes, "
-            "C19_finite_temperature. Every run: each intensity variable x reference location x {first, middle, last} time x {0, -1, "
-            "nan, +inf, -inf}; reference temperatures x {nan, +-inf}; variances x {nan, inf, negative} as float and as array "
-            "entry; short fix_alpha; transposed arrays; unknown method/solver: raise/return vs the model; finiteness of every "
+            "C19_finite_temperature; generated each run: the assert conditions of parse_st_var / validate_sections / the intensity checks / "
+            "wls_sparse abstracted to the IEEE classes, no return before them, every variance through parse_st_var; listed corruptions "
+            "falsify a guard that is in the source; the verdict table is what these guards give. Every run: each intensity variable x reference location x {first, middle, last} time x {0, -1, "
+            "nan, +inf, -inf}; reference temperatures x {nan, +-inf}; variances x {nan, inf, negative} as float, as array "
+            "entry and through a callable; short fix_alpha; transposed arrays; unknown method/solver: raise/return vs the model; finiteness of every "
             "output where intensities are valid.",
-            NOTE + "The abstract class semantics of numpy are a model, validated row by row.", "§8 C19"),
+            NOTE + TRANSL + "The abstract class semantics of numpy are a model, validated row by row.", "§8 C19"),
     "C20": ("Lean 4 theorems on the model of ufunc_per_section_helper (selection, three orderings, row->bath map) + differential correspondence over modes x calc_per x backing",
             "Proof: C20_stretch_selects (exactly the in-range locations, ascending, once), C20_stretch_order, "
             "C20_section_order, C20_all_order (permutation sorted by start), C20_x_indices_ascending, C20_row_bath (the "
